@@ -17,6 +17,10 @@ Open Scope Z_scope.
 Theorem C08_tree_repaired : fx_sigdel tree_fixes = true /\ fx_polladd tree_fixes = true.
 Proof. exact tree_repaired. Qed.
 
+(* the kernel the check ran on behaves as the virtual epoll of harness and model assumes (probed on every run) *)
+Theorem C08_kernel_epoll_as_modelled : LOOP_KERNEL_EPOLL_AS_MODELLED = 1.
+Proof. exact kernel_model_probe. Qed.
+
 (* well-formedness for all histories: no item twice on the lists; a timer / descriptor item on a list has its slot in
    JOBLIST state; a queued signal clone belongs to a live registration; a heap entry belongs to an ACTIVE slot; uids
    are unique and fresh; nothing that is gone is still registered; the log never shows a callback of something gone *)
@@ -126,6 +130,7 @@ Example C08_example_repaired :
 Proof. exact signal_del_repaired_witness. Qed.
 
 Print Assumptions C08_tree_repaired.
+Print Assumptions C08_kernel_epoll_as_modelled.
 Print Assumptions C08_wf.
 Print Assumptions C08_del_never_again.
 Print Assumptions C08_deleted_not_registered.
